@@ -89,6 +89,7 @@ def main():
     lines, idx = [], []
     for n_, (c, r) in enumerate(zip(cases, results)):
         ck.count('routine:' + c['routine']); ck.count('status:' + r['status']); ck.count('n=%d' % len(c['A']))
+        ck.count('storage:' + c.get('dtype', 'float64') + ('/' + c['order'] if c.get('order') else '')); ck.count('scale:' + ('dyadic-tiny' if c.get('den', 1) != 1 else 'unit'))
         moved = r['status'] == 'ok' and (r.get('eff') or 0) > 0 or (r['status'] == 'ok' and r.get('R') != c['A'])
         ck.case(sample={'routine': c['routine'], 'A': c['A'], 'itr': c.get('itr'), 'seed': c['seed'], 'eff': r.get('eff'), 'draws': len(r['draws'])}
                 if moved and ck.dist.get('routine:' + c['routine'], 0) == 3 else None,
